@@ -17,7 +17,7 @@ pub fn def() -> CheckDef {
         level: "exploration",
         assumptions: &["monotone simulated clock; the engine compares whole milliseconds, so a tick within 1 ms of the limit is accepted either way", "the timed process stays cached (eviction is C13's subject)", "no storage errors are injected"],
         probes: &["probe.rule_fired", "probe.answered_before_limit", "probe.two_rules_fired_at_different_ticks", "probe.stalled_tick", "probe.step_level_rule", "probe.tick_on_limit_ms", "probe.never_answered"],
-        quick_cases: 2500,
+        quick_cases: 3000,
         no_shrink: &[],
     }
 }
